@@ -10,6 +10,7 @@ BOUNDS = {'quick': 'array length 0..10, every boolean array, every integer min_n
           'thorough': 'array length 0..13, every boolean array, every integer min_n_cycles >= 0'}
 OUTSIDE = 'arrays longer than the bound; non-integer min_n_cycles'
 STUBS = []
+CROSSHAIR = 'crosscheck/ch_c08.py'     # thorough tier: second engine on arrays of length <= 5
 ASSUMPTIONS = ['numpy model (models/np_model.py) validated by conformance + witness replay on real numpy']
 
 
